@@ -8,6 +8,7 @@ import (
 	"regexp"
 	"strconv"
 	"strings"
+	"time"
 	"unicode/utf8"
 
 	"golang.org/x/tools/go/ssa"
@@ -519,7 +520,21 @@ func init() {
 	reg("(*regexp.Regexp).Match", reMatch)
 	reg("time.Parse", func(fr *frame, a []value) value {
 		res := fr.fn.Signature.Results()
-		return tuple{zero(res.At(0).Type()), iface{}}
+		layout, ok1 := a[0].(string)
+		text, ok2 := a[1].(string)
+		if !ok1 || !ok2 {
+			panic(unsupported("time.Parse of a symbolic string"))
+		}
+		t, err := time.Parse(layout, text)
+		if err != nil {
+			return tuple{zero(res.At(0).Type()), fr.i.newError("time.Parse: " + err.Error())}
+		}
+		// time.Time{wall, ext, loc} without a monotonic reading: wall holds the nanoseconds,
+		// ext the seconds since year 1 (UTC location = nil)
+		tv := zero(res.At(0).Type()).(structure)
+		tv[0] = uint64(t.Nanosecond())
+		tv[1] = int64(t.Unix() + 62135596800)
+		return tuple{tv, iface{}}
 	})
 
 	// ---- time / os / environment: not available ----
